@@ -38,8 +38,13 @@ def check_symbols(ctx, sfile, what):
     ctx.add("symbols_in_artifacts", len(globl))
     ctx.add("shortened_symbols_in_artifacts", sum(1 for s in globl if re.search(r"_H[0-9A-F]{32}$", s)))
     for s in dup:
-        ctx.violation(f"{what}: symbol defined twice in one program: {s}", {"artifact": what, "symbol": s}, key="dup-symbol")
+        # a duplicate whose only type arguments are equally named types of different modules is its own class
+        same = what.startswith("same_named_types")
+        ctx.violation(f"{what}: symbol defined twice in one program: {s}", {"artifact": what, "symbol": s},
+                      key="dup-symbol:same-named-types-of-different-modules" if same else "dup-symbol")
     for s in duplab:
+        if s in dup:
+            continue
         ctx.violation(f"{what}: label defined twice in one program: {s}", {"artifact": what, "symbol": s}, key="dup-label")
     for k, s in bad[:5]:
         ctx.violation(f"{what}: invalid symbol ({k}): {s}", {"artifact": what, "symbol": s}, key="artifact-" + k)
@@ -69,7 +74,9 @@ def run(ctx):
     build_repo(boots=True)
     src = os.path.join(ctx.work, "generic.dora")
     open(src, "w").write(GENERIC_PROG)
-    todo = [(src, "cannon"), (src, "boots")]
+    src2 = os.path.join(ctx.work, "same_named_types.dora")
+    open(src2, "w").write(open(os.path.join(VERIF, "gen", "same_named_types.dora")).read())
+    todo = [(src, "cannon"), (src, "boots"), (src2, "cannon")]
     if not ctx.quick:
         todo += [(os.path.join(REPO, "pkgs/boots/boots.dora"), "boots-self")]
     for path, backend in todo:
